@@ -225,3 +225,18 @@ PROPS["C04"] = dict(
     rule=_DECODE_RULE + "Non-trivial = an alignment with >= 2 real words; distinct = distinct case text.",
     assumptions=["grammar words are dictionary words"],
 )
+
+PROPS["C02"] = dict(
+    harness="viterbi",
+    wrap=["acmod_score"],
+    level="exploration",
+    technique="property-based testing against an independent reference model: explicit max-plus token passing over the expanded grammar x pronunciation x triphone x HMM-state network, fed with the senone scores captured (--wrap=acmod_score) from the run being judged; exact integer equality",
+    level_text="Generated small grammars (FSG with null arcs, loops, branching into/out of states, fillers and alternates on/off) over generated pronunciations (1-4 phones over the whole phone set) and dictionary words, lw/wip/pip variations, 1-118 frames of speech/noise, beams opened: the path score the decoder reports must equal the optimum of a reference DP that shares no code or data structure with the lextree/history (own triphone lookup by linear scan with the documented back-off, own 3-state evaluator, own cross-word context rule, unbounded null chains). No legal alignment <=> no result.",
+    level_note="Trusted: the reference DP (its scoring conventions were validated against the decoder on linear grammars during design), tmat/mdef data as loaded, the captured senone scores (taken as given, as the property says). Decided in the no-clamping regime (cases whose score spread approaches WORST_SCORE are counted as out-of-regime); compallsen=yes so that every senone score is defined; 3-state left-to-right models (the bundled ones).",
+    quick=dict(cases=300, maxlen=400, budget=100),
+    thorough=dict(cases=8000, maxlen=400, budget=1200),
+    rule=("choices decode to (0-4 new words with generated pronunciations, 0-3 dictionary words, FSG of 1-5 states and 1-9 arcs incl. null arcs and self-loops, "
+          "lw in {6.5,1,9.5}, wip in {0.65,1,0.2}, pip in {1,0.5}, fillers/alternates on/off, audio of 1-19000 samples). Non-trivial = the optimal result has >= 2 real "
+          "words, or >= 1 real word with a grammar word whose left contexts select >= 2 distinct word-initial models; distinct = distinct case text."),
+    assumptions=["beam=pbeam=wbeam=0 and maxhmmpf=-1 disable pruning", "utterances <= 120 frames keep scores far from WORST_SCORE"],
+)
